@@ -83,7 +83,7 @@ func c13ReproRunPlan(t *testing.T, sc *ccScenario, plan *c13Plan, key,
 		t.Logf("life %d sweeper input: %s", r.life, r.core)
 	}
 
-	run.crashStates, run.crashLast = nil, nil
+	run.crashStates, run.crashLast, run.cribLate = nil, nil, false
 	err := c13Compare(base, run, sc, plan, st)
 	what := fmt.Sprintf("stop after %q: %v", base.effLog[k-1], err)
 	switch {
@@ -203,4 +203,29 @@ func TestVerifC13ReproTaprootPreimageLost(t *testing.T) {
 	plan.kind, plan.tap = c13KindTaprootFinal, 2
 	c13ReproRunPlan(t, sc, plan, c13KeyTaprootPreimageLost,
 		"SwapContract(*contractcourt.htlcIncomingContestResolver", 1)
+}
+
+// A legacy channel closed with our commitment: the nursery publishes the
+// timeout transaction of an offered HTLC at its expiry (730). The node stops
+// right after that; while it is down the transaction confirms and 4 blocks
+// (= the CSV delay) are mined. The restarted nursery gets the historical
+// confirmation, NurseryStore.CribToKinder files the second-level output under
+// height 734 = the tip, and the incubator, which graduates only the height of
+// each NEW block, never offers it to the sweeper in this process life: the
+// channel stays StateWaitingFullResolution (an uninterrupted node sweeps at
+// 734). Control: 3 blocks of downtime, same outcome as uninterrupted.
+func TestVerifC13ReproCribMaturedWhileDown(t *testing.T) {
+	for _, d := range []int{c13CSV - 1, c13CSV} {
+		sc, plan := c13ReproScenario()
+		sc.ChanKind = 0
+		plan.conf, plan.kind, plan.realNursery = ccL, c13KindLegacy, true
+		plan.horizon = 760
+		plan.offline = []int{d}
+		key := c13KeyCribLate
+		if d < c13CSV {
+			key = "control"
+		}
+		t.Logf("---- %d blocks mined while the node is down", d)
+		c13ReproRunPlan(t, sc, plan, key, "NurseryPublishTx", 1)
+	}
 }
